@@ -507,7 +507,7 @@ def partitions(tier, seed):
                 CNAMES[ci], ei, bool(flag), bool(1 - flag), dom, pth)
             # (a) the value is free, the option arguments are one fixed combination (rotating with the shape)
             mk, mx, sc, bd, ss = si % 4, (si + 1) % 3, (si + 2) % 3, bool(si % 2), (si * 2 + 1) % len(SAMESITE)
-            L = 2 if q else 3
+            L = 1 if q else 2
             P.append(_part('cookie_val_%s_name%d_exp%d_f%d' % (side, ci, ei, flag), 'value: str', ['len(value) <= %d' % L, VALPRE],
                            'cookie_case(%d, value, %d, %d, %d, %s, %s)' % (ci, mk, mx, sc, bd, tail % ss), 150 if q else 600,
                            '%s: value <= %d free characters (cookie-octets or non-ASCII), options fixed at max_age kind %d/%d, secure %r, '
@@ -516,11 +516,11 @@ def partitions(tier, seed):
                                shape, L, mk, mx, [None, True, False][sc], bd, SAMESITE[ss])))
             # (b) the option arguments are free, the value is one of two fixed strings
             P.append(_part('cookie_opt_%s_name%d_exp%d_f%d' % (side, ci, ei, flag),
-                           'vi: int, ma_kind: int, max_age: int, secure: int, by_default: bool, ssi: int',
-                           ['0 <= vi <= 1', '0 <= ma_kind <= 3', '0 <= max_age <= 2', '0 <= secure <= 2', '0 <= ssi < %d' % len(SAMESITE)],
-                           "cookie_case(%d, ('', 'v1')[vi], ma_kind, max_age, secure, by_default, %s)" % (ci, tail % 'ssi'),
+                           'ma_kind: int, max_age: int, secure: int, by_default: bool, ssi: int',
+                           ['0 <= ma_kind <= 3', '0 <= max_age <= 2', '0 <= secure <= 2', '0 <= ssi < %d' % len(SAMESITE)],
+                           "cookie_case(%d, 'v1', ma_kind, max_age, secure, by_default, %s)" % (ci, tail % 'ssi'),
                            150 if q else 600,
-                           "%s: value '' or 'v1', max_age int/float/str in 0..2 (0 included), secure tri-state x "
+                           "%s: value 'v1', max_age int/float/str in 0..2 (0 included), secure tri-state x "
                            'secure_cookies_by_default, same_site menu of %d; every attribute set against the request' % (shape, len(SAMESITE))))
             if not q:
                 P.append(_part('cookie_joint_%s_name%d_exp%d_f%d' % (side, ci, ei, flag),
